@@ -16,15 +16,33 @@ from mmverif.engine.values import *  # pylint: disable=wildcard-import
 MAX_PATHS = 4000
 
 
+def elem_sort_of(shape):
+  if isinstance(shape, TSet):
+    return z3.SetSort(shape.esort)
+  if isinstance(shape, TInt):
+    return z3.IntSort()
+  return None
+
+
 class GenState:
+  """Ghost state of a generator body: the set of values yielded so far."""
 
   def __init__(self, contract):
     self.contract = contract
     self.count = 0
+    self.esort = elem_sort_of(getattr(contract, 'elem', None))
+    self.ys = z3.EmptySet(self.esort) if self.esort is not None else None
+
+  def add_range(self, lo, hi):
+    if self.ys is not None and self.esort == z3.IntSort():
+      from mmverif.engine import cardlemmas
+      self.ys = z3.SetUnion(self.ys, cardlemmas.range_set(lo, hi))
 
   def on_yield(self, ex, v, node):
     ctx = ex.ctx
     self.count += 1
+    if self.ys is not None:
+      self.ys = z3.SetAdd(self.ys, symexec.elem_term(v, self.esort))
     vals = loopmod.visible_vars(self.env)
     vals = dict(vals)
     vals['elem'] = v
@@ -182,7 +200,14 @@ def check_return(ctx, contract, values, result, entry_marks, fdef, env):
   vals['result'] = result
   if env.gen is not None:
     vals['n_yields'] = VInt(env.gen.count)
+    if env.gen.ys is not None:
+      vals['yielded'] = VSet(env.gen.ys, env.gen.esort)
   ns = NS(ctx, vals, heap=None, old=ctx.entry_old_ns)
+  if env.gen is not None:
+    for cl in contract.gen_post:
+      g = cl.fn(ns)
+      ctx.oblige(g, cl.label, 'post', cl.props)
+      ctx.assume(g)
   if contract.returns is not None:
     want = unwrap(contract.returns(ctx.entry_old_ns))
     ctx.oblige(eq_term(result, want),
